@@ -46,6 +46,10 @@ claim("C19", "edge-cut reachability + provenance + fail-stop walk on the legacy 
       "Decides index/offset contiguity of every applied WAL segment anchored at the chosen snapshot, eligibility (not newer than T) of snapshot and segments, the operands of format arbitration, and error discipline of RestoreV3. Reconstruction correctness inside SQLite is not decided.",
       _TB, "DESIGN.md 3/C19")
 
+claim("C16", "edge-cut reachability + phi provenance + fail-stop walk + publication typestate on the follow-mode code",
+      "Decides the ordering skeleton of follow mode on every path: sidecar only after a successful advancing apply, in-memory TXID only after a durable sidecar, only contiguous/extending files applied and the TXID advanced only on the apply's nil edge, apply syncs/verifies/syncs under the exclusive lock, the loop ends only on cancellation, and writer/reader agreement of the resume bound (defect F4 found and fixed). Convergence/byte equality are not decided.",
+      _TB, "DESIGN.md 3/C16")
+
 _pending = "check not built yet in this revision (planned, see DESIGN.md section 3); not claimed until its rules run clean on the unchanged tree"
-for _p in ["C04","C06","C12","C13","C14","C16","C18"]:
+for _p in ["C04","C06","C12","C13","C14","C18"]:
     na(_p, _pending)
